@@ -52,16 +52,18 @@ func exesStr(es []ExeSpec) string {
 }
 
 type MultiOpts struct {
-	Grace  time.Duration
-	Extra  []func(env *Env) // extra harness threads (standalone API callers)
-	Setup  func(env *Env)
-	Final  func(env *Env) string
-	Reduce bool
+	Quiet      bool // no event recording (race build: the harness must not share memory between threads)
+	TagContext bool // give every execution a context value identifying it, and register the executor listeners
+	Grace      time.Duration
+	Extra      []func(env *Env) // extra harness threads (standalone API callers)
+	Setup      func(env *Env)
+	Final      func(env *Env) string
+	Reduce     bool
 }
 
 func multiBody(stack []Spec, exes []ExeSpec, o MultiOpts) func() {
 	return func() {
-		env := NewEnv(stack)
+		env := newEnvQuiet(stack, o.Quiet)
 		env.Reduce = o.Reduce
 		if o.Setup != nil {
 			o.Setup(env)
@@ -84,6 +86,10 @@ func multiBody(stack []Spec, exes []ExeSpec, o MultiOpts) func() {
 					}
 				}
 				ex := failsafe.NewExecutor[int](pol...)
+				if o.TagContext {
+					ex = ex.WithContext(context.WithValue(context.Background(), exeKeyT{}, x.ID))
+					ex = ex.OnDone(env.doneEv(-1, "done")).OnSuccess(env.doneEv(-1, "success")).OnFailure(env.doneEv(-1, "failure"))
+				}
 				switch es.Ctx {
 				case "cancel":
 					ctx, cancel := vcontext.WithCancel(context.Background())
